@@ -4,7 +4,7 @@ import os, sys, random
 from fractions import Fraction
 import vlib
 
-LEAN_TARGETS = ['CvxVerif.Props.C16', 'CvxVerif.Props.C16More']
+LEAN_TARGETS = ['CvxVerif.Props.C16', 'CvxVerif.Props.C16More', 'CvxVerif.Props.C16Partial']
 MODEL_FILES = ['CvxVerif.Model.Sparse', 'CvxVerif.Proofs.Sparse']
 LEVEL = 'proof'
 TRUSTED = ['hand-written model lean/CvxVerif/Model/Sparse.lean (entries in storage order; insertion with accumulation), tied by the exact '
